@@ -627,7 +627,6 @@ Proof.
   end.
   { induction l0 as [|nm r IH]; intros [x0 r0] Hacc; [exact Hacc|].
     cbn [fold_left]. apply IH. cbn [fst] in Hacc.
-    destruct r0; [|exact Hacc].
     destruct (db_id_of (cn_node x0) nm); cbn; exact Hacc. }
   apply Hgen. reflexivity.
 Qed.
